@@ -7,7 +7,7 @@ def run(ctx):
     ctx.build()
     for cfg in ("MC_Interp.cfg", "MC_Interp_ml.cfg", "MC_Interp_1d.cfg") + (() if quick else ("MC_Interp_3d.cfg",)):
         ctx.mc("MC_Interp", cfg, timeout=3000)
-    out = ctx.harness(["interp", "--random", "1500" if quick else "40000", "--isg", "100" if quick else "1500"], timeout=3000)
+    out = ctx.harness(["interp", "--random", "1500" if quick else "300000", "--isg", "100" if quick else "6000"], timeout=3000)
     scns = common.split_scenarios(out)
     for s, evs in scns:
         if "vehicle" in s or len(s.get("axes", [])) >= 2:
